@@ -14,7 +14,7 @@ BASE = dict(
     SrcSet={"none"}, PlaceSet={"last"}, TitleSet={False}, SublineSet={False}, NewPageSet={False},
     PbRowSet={"column"}, PbHdrSet={True}, DivSet={"none"}, FontSet={1}, SizeSet={9}, PaperSet={"letter"},
     PgHFSet={0}, PFSet={"double"}, PLSet={"double"}, BFSet={"single"}, BLSet={"single"}, UTSet={""}, UBSet={""},
-    NDataSet={2}, GPosSet={"first"}, RelWSet={"equal"}, HdrWSet={False}, UShapeSet={"scalar"},
+    NDataSet={2}, GPosSet={"first"}, RelWSet={"equal"}, HdrWSet={False}, UShapeSet={"scalar"}, DupSet={False},
 )
 # deviation flags: what the code under test does today / what the properties describe
 IMPL = dict(ReserveDefaultHeader=False, BudgetContinuation=False, ChargeRenderedOnly=False, BorderByPage=True)
@@ -84,6 +84,7 @@ def _o_c02(rng, c, variant):
 
 NP = {False, True}
 DIV3 = {"none", "second", "first", "outer"}
+DIVX = DIV3 | {"resume", "cycle"}       # + a value that returns after a divider / after another value
 PR = {"column", "first_row"}
 S3 = {"plain", "pageby", "subline"}
 FS3 = {"none", "table", "para"}
@@ -103,13 +104,13 @@ PROPS = {
                         variants=1),
                    dict(consts=C(NSet={2, 5, 9, 14}, Heights={1, 2, 3}, NrowSet={1, 2, 3, 5, 9, 17}, Strategies=ALL_STRAT, LevelSet={1, 2},
                                  NewPageSet=NP, PbRowSet=PR, HdrSet={"default", "none", "explicit"}, FootSet=FS3, SrcSet={"none", "para"},
-                                 PlaceSet=PL3, NDataSet={1, 2, 3}, GPosSet={"first", "middle", "last", "split"}), simulate=450, variants=3)],
+                                 PlaceSet=PL3, NDataSet={1, 2, 3}, GPosSet={"first", "middle", "last", "split", "rev"}, DivSet=DIVX), simulate=450, variants=3)],
             thorough=[dict(consts=C(NSet={0, 1, 2, 3, 4}, Heights={1, 2}, NrowSet={2, 3, 5}, Strategies=ALL_STRAT, LevelSet={1, 2}, NewPageSet=NP,
                                     PbRowSet=PR, HdrSet={"default"}, FootSet={"none"}), variants=1),
                       dict(consts=C(NSet={2, 5, 9, 14, 25, 40, 60}, Heights={1, 2, 3}, NrowSet={1, 2, 3, 5, 9, 17, 30, 50}, Strategies=ALL_STRAT,
                                     LevelSet={1, 2, 3}, NewPageSet=NP, PbRowSet=PR, HdrSet={"default", "none", "explicit", "explicit2"},
                                     FootSet=FS3, SrcSet=FS3, PlaceSet=PL3, NDataSet={1, 2, 3, 5},
-                                    GPosSet={"first", "middle", "last", "split"}), simulate=7000, variants=3)]),
+                                    GPosSet={"first", "middle", "last", "split", "rev"}, DivSet=DIVX), simulate=7000, variants=3)]),
         opts=_o_c02,
         nontrivial=lambda c, pred: c["n"] >= 1,
     ),
@@ -123,17 +124,18 @@ PROPS = {
                    inv=["M_C03_Budget"], inv_impl=["M_C03_BudgetModuloKnown"]),
         gen=dict(
             quick=[dict(consts=C(NSet={4}, Heights={1, 2}, NrowSet={3, 5}, Strategies=S3, LevelSet={1}, HdrSet={"default", "explicit"},
-                                 FootSet={"none", "table"}, NewPageSet=NP, PbRowSet=PR, PlaceSet={"all"})),
+                                 FootSet={"none", "table"}, NewPageSet=NP, PbRowSet=PR, PlaceSet={"all"}, DivSet={"none", "resume"})),
                    dict(consts=C(NSet={0, 1, 7, 12, 20}, Heights={1, 2, 3, 4, 6}, NrowSet={1, 2, 5, 8, 13, 21}, Strategies=ALL_STRAT,
                                  LevelSet={1, 2, 3}, HdrSet={"none", "default", "explicit", "explicit2"}, FootSet=FS3,
                                  SrcSet=FS3, NewPageSet=NP, PbRowSet=PR, PlaceSet=PL3, FontSet={1, 4, 6, 9}, SizeSet={6, 9, 12, 18, 24},
-                                 PbHdrSet=NP, DivSet=DIV3), simulate=900)],
+                                 PbHdrSet=NP, DivSet=DIVX, DupSet=NP), simulate=900)],
             thorough=[dict(consts=C(NSet={4}, Heights={1, 2, 3}, NrowSet={3, 4, 6}, Strategies=S3, LevelSet={1, 2},
-                                    HdrSet={"none", "default", "explicit"}, FootSet={"none", "table"}, NewPageSet=NP, PbRowSet=PR, PlaceSet={"all"})),
+                                    HdrSet={"none", "default", "explicit"}, FootSet={"none", "table"}, NewPageSet=NP, PbRowSet=PR, PlaceSet={"all"},
+                                    DivSet={"none", "resume"})),
                       dict(consts=C(NSet={0, 1, 7, 12, 20, 35, 60}, Heights={1, 2, 3, 4, 5, 6}, NrowSet={1, 2, 5, 8, 13, 21, 34, 50}, Strategies=ALL_STRAT,
                                     LevelSet={1, 2, 3}, HdrSet={"none", "default", "explicit", "explicit2"}, FootSet=FS3, SrcSet=FS3,
                                     NewPageSet=NP, PbRowSet=PR, PlaceSet=PL3, FontSet={1, 2, 3, 4, 5, 6, 7, 8, 9, 10},
-                                    SizeSet={6, 8, 9, 10, 12, 14, 18, 24}, PbHdrSet=NP, DivSet=DIV3), simulate=10000)]),
+                                    SizeSet={6, 8, 9, 10, 12, 14, 18, 24}, PbHdrSet=NP, DivSet=DIVX, DupSet=NP), simulate=10000)]),
         nontrivial=lambda c, pred: pred is not None and pred and pred[-1]["p"] >= 2,
     ),
     "C04": dict(
@@ -150,15 +152,15 @@ PROPS = {
                    props=["PagesMonotone"]),
         gen=dict(
             quick=[dict(consts=C(NSet={4}, Heights={1, 2}, NrowSet={3, 4, 6}, Strategies=S3, LevelSet={1}, HdrSet={"none", "explicit"},
-                                 FootSet={"none"}, NewPageSet=NP, PbRowSet=PR, DivSet=DIV3), prefixes=0.25),
+                                 FootSet={"none"}, NewPageSet=NP, PbRowSet=PR, DivSet={"none", "second", "resume", "cycle"}), prefixes=0.25),
                    dict(consts=C(NSet={5, 6, 7, 11}, Heights={1, 2, 3}, NrowSet={2, 3, 6, 10, 17, 30}, Strategies=ALL_STRAT, LevelSet={1, 2, 3},
                                  HdrSet={"none", "default", "explicit", "explicit2"}, FootSet=FS3, SrcSet=FS3, NewPageSet=NP, PbRowSet=PR,
-                                 PlaceSet=PL3, PbHdrSet=NP, DivSet=DIV3), simulate=700, prefixes=0.3)],
+                                 PlaceSet=PL3, PbHdrSet=NP, DivSet=DIVX, DupSet=NP), simulate=700, prefixes=0.3)],
             thorough=[dict(consts=C(NSet={2, 3, 4}, Heights={1, 2, 3}, NrowSet={2, 3, 4, 6}, Strategies=S3, LevelSet={1, 2}, HdrSet={"none", "explicit"},
                                     FootSet={"none"}, NewPageSet=NP, PbRowSet=PR), prefixes=0.1),
                       dict(consts=C(NSet={6, 7, 11, 19, 30}, Heights={1, 2, 3}, NrowSet={2, 3, 6, 10, 17, 30}, Strategies=ALL_STRAT, LevelSet={1, 2, 3},
                                     HdrSet={"none", "default", "explicit", "explicit2"}, FootSet=FS3, SrcSet=FS3, NewPageSet=NP, PbRowSet=PR,
-                                    PlaceSet=PL3, PbHdrSet=NP, DivSet=DIV3), simulate=9000, prefixes=0.2)]),
+                                    PlaceSet=PL3, PbHdrSet=NP, DivSet=DIVX, DupSet=NP), simulate=9000, prefixes=0.2)]),
         nontrivial=lambda c, pred: pred is not None and pred and pred[-1]["p"] >= 2,
     ),
     "C05": dict(
@@ -174,12 +176,12 @@ PROPS = {
                                  HdrSet={"explicit"}, NewPageSet=NP, PbRowSet=PR, DivSet=DIV3)),
                    dict(consts=C(NSet={6, 9, 15}, Heights={1, 2}, NrowSet={3, 4, 5, 8, 12, 30}, Strategies={"pageby", "subline", "subpb"},
                                  LevelSet={1, 2, 3}, HdrSet={"none", "explicit", "default"}, FootSet={"none", "table"},
-                                 NewPageSet=NP, PbRowSet=PR, DivSet=DIV3, PbHdrSet=NP), simulate=700)],
+                                 NewPageSet=NP, PbRowSet=PR, DivSet=DIVX, PbHdrSet=NP, GPosSet={"first", "rev", "split"}), simulate=700)],
             thorough=[dict(consts=C(NSet={1, 3, 5}, Heights={1}, NrowSet={3, 4, 6}, Strategies={"pageby", "subline", "subpb"}, LevelSet={1, 2},
                                     HdrSet={"none", "explicit"}, NewPageSet=NP, PbRowSet=PR, DivSet=DIV3, PbHdrSet={True})),
                       dict(consts=C(NSet={6, 9, 15, 25, 40}, Heights={1, 2}, NrowSet={3, 4, 5, 8, 12, 30}, Strategies={"pageby", "subline", "subpb"},
                                     LevelSet={1, 2, 3}, HdrSet={"none", "explicit", "default"}, FootSet={"none", "table"},
-                                    NewPageSet=NP, PbRowSet=PR, DivSet=DIV3, PbHdrSet=NP), simulate=9000)]),
+                                    NewPageSet=NP, PbRowSet=PR, DivSet=DIVX, PbHdrSet=NP, GPosSet={"first", "rev", "split"}), simulate=9000)]),
         nontrivial=lambda c, pred: pred is not None and any(e["k"] in ("head", "subhead") for e in pred),
     ),
     "C06": dict(
@@ -194,12 +196,12 @@ PROPS = {
                                  FootSet={"none", "table"}, SrcSet={"none", "para"}, PlaceSet=PL3, TitleSet={True}, SublineSet={True}, PbHdrSet=NP)),
                    dict(consts=C(NSet={1, 5, 8}, Heights={1}, NrowSet={3, 4, 6, 20}, Strategies=S3, HdrSet={"none", "default", "explicit2"},
                                  FootSet=FS3, SrcSet=FS3, PlaceSet=PL3, TitleSet=NP, SublineSet=NP, PbHdrSet=NP,
-                                 PaperSet={"letter", "landscape", "a4", "a4land", "custom"}, PgHFSet={0, 1, 2, 3}), simulate=1200)],
+                                 PaperSet={"letter", "letterm", "landscape", "a4", "a4land", "custom"}, PgHFSet={0, 1, 2, 3}), simulate=1200)],
             thorough=[dict(consts=C(NSet={1, 5}, Heights={1}, NrowSet={3, 4, 20}, Strategies=S3, HdrSet={"none", "default"}, FootSet=FS3, SrcSet=FS3,
                                     PlaceSet=PL3, TitleSet={True}, SublineSet={True}, PbHdrSet=NP)),
                       dict(consts=C(NSet={1, 5, 12}, Heights={1, 2}, NrowSet={3, 4, 6, 20}, Strategies=ALL_STRAT,
                                     HdrSet={"none", "default", "explicit", "explicit2"}, FootSet=FS3, SrcSet=FS3, PlaceSet=PL3, TitleSet=NP,
-                                    SublineSet=NP, PbHdrSet=NP, PaperSet={"letter", "landscape", "a4", "a4land", "custom"},
+                                    SublineSet=NP, PbHdrSet=NP, PaperSet={"letter", "letterm", "landscape", "a4", "a4land", "custom"},
                                     PgHFSet={0, 1, 2, 3}), simulate=12000)]),
         nontrivial=lambda c, pred: pred is not None and pred and pred[-1]["p"] >= 2,
     ),
@@ -487,8 +489,9 @@ def space_size(k):
     total = 0
     flat = 1
     for name in ("PbHdrSet", "NrowSet", "HdrSet", "PlaceSet", "TitleSet", "SublineSet", "FontSet", "SizeSet", "PaperSet", "PgHFSet",
-                 "PFSet", "PLSet", "BFSet", "BLSet", "NDataSet", "GPosSet", "RelWSet"):
+                 "PFSet", "PLSet", "BFSet", "BLSet", "GPosSet", "RelWSet"):
         flat *= len(k[name])
+    flat *= sum((len(k.get("DupSet", {False})) if nd >= 2 else 1) for nd in k["NDataSet"])
     # the shape of the user borders is a dimension only when a user border is set
     ush = len(k.get("UShapeSet", {"scalar"}))
     flat *= sum((ush if (a or b) else 1) for a in k["UTSet"] for b in k["UBSet"])
@@ -508,5 +511,7 @@ def space_size(k):
                 lev = sum((L + 1) ** max(0, n - 1) for L in k["LevelSet"])
                 np_ = sum((len(k["PbRowSet"]) if v else 1) for v in k["NewPageSet"])
                 base *= lev * len(k["DivSet"]) * np_
+            elif sb and "cycle" in k["DivSet"]:
+                base *= len(set(k["DivSet"]) & {"none", "cycle"})
             total += base
     return int(total * flat * hdr_factor * foot_factor * src_factor)
